@@ -8,7 +8,7 @@ Verdict(o) ==
   IF "err" \in DOMAIN o THEN "raised"
   ELSE IF o.kind = "flags" THEN
        (IF \E n \in SetOf(o.shown) : n \notin ({p[1] : p \in Fam(o.fam).single} \cup FieldNames(o.fam) \cup Fam(o.fam).zero
-                                                \cup {"O_ACCMODE"})
+                                                \cup {"O_ACCMODE"} \cup {p[1] : p \in Extra(o.fam)})
         THEN "name-not-darwin"
         ELSE FlagVerdict(o.fam, SetOf(o.bits), SetOf(o.shown)))
   ELSE IocVerdict(o.d, o.len, o.group, o.num, o.sh)
